@@ -37,7 +37,7 @@ func init() {
 
 // c20Unit is one unit of exploration and, at the same time, the replay value of every finding it produces.
 type c20Unit struct {
-	Part   string `json:"part"` // a | a-seeds | b-tx | b-call | b-query | c-cfg | c-kind | c-fee | c-gov | d | f-grid | f-live
+	Part   string `json:"part"` // a | a-seeds | b-tx | b-call | b-query | q-trace | c-cfg | c-kind | c-fee | c-gov | d | f-grid | f-live
 	Tier   string `json:"tier"` // the families of the thorough tier are larger; indices are tier-relative
 	Family string `json:"family,omitempty"`
 	From   int    `json:"from,omitempty"` // index range [From, To) of the family
@@ -610,6 +610,8 @@ func c20RunUnit(u c20Unit, rec *c20Rec) {
 		c20RunFGrid(u, rec)
 	case "f-live":
 		c20RunFLive(u, rec)
+	case "q-trace":
+		c20RunQTrace(u, rec)
 	default:
 		fmt.Fprintf(os.Stderr, "C20: unknown unit part %q\n", u.Part)
 		os.Exit(2)
@@ -656,6 +658,7 @@ func c20Units(thorough bool) []c20Unit {
 		units = append(units, c20Ranges("b-call", tier, f.Name, f.N, 150, 0)...)
 	}
 	units = append(units, c20QueryUnits(tier)...)
+	units = append(units, c20TraceUnits(tier)...) // trace configurations served by child processes (c20_trace_live.go)
 	// (c)
 	units = append(units, c20CfgUnits(tier)...)
 	units = append(units, c20GovUnits(tier)...)
@@ -772,7 +775,7 @@ func c20ABCIRule(thorough bool) string {
 	return fmt.Sprintf("(a) every byte string of length <= 2%s, and for 6 valid seed txs (eth legacy, eth dynamic-fee, bank send, authz MsgExec(bank send), cpc MsgDeployErc20Contract, vauth MsgSubmitProofExternalOwnedAccount): every truncation, every byte replaced by %d values%s, for the 2 eth seeds also every truncation / byte substitution of MarshalledTx inside a valid envelope and 5 malformed From values; each input through CheckTx(New), CheckTx(Recheck), Simulate, PrepareProposal, ProcessProposal alone and in batches of 50 through PrepareProposal, ProcessProposal, FinalizeBlock+Commit. "+
 		"(b) every ABI method of every registered custom precompile (registry x ABI): valid call, bare selector, every truncation, every 32-byte word replaced by {0, 2^256-1, 2^255, 0x20}, trailing garbage of 1/31/32/33 bytes, unknown selectors; as eth tx (CheckTx, Simulate, proposals, FinalizeBlock) and through EthCall/EstimateGas (%s); every gRPC query method of x/evm, x/feemarket, x/cpc, x/vauth from the protobuf service descriptors with empty, valid, field-wise mutated requests and raw byte strings (%s). "+
 		"(c) MaxGas in {-1,0,1,2,21000,2^63-1} x MaxBytes in {1048576,22020096} (PrepareProposal MaxTxBytes in {1, MaxBytes}) x {empty, one transfer, six mixed txs, gas limit above MaxGas}: InitChain + 3 blocks incl. proposal phases; every kind of the 17-kind tx alphabet at every position of a 3-tx block (2 fillers, MaxGas 40M and 100k) followed by an empty block; 8 fee-market histories (full blocks for up to 210 heights; fee-market parameters >= 2^63); 8 governance proposals carrying a MsgEthereumTx / MsgSend declared from the gov account, executed by gov's EndBlocker. "+
-		"(d) blocks [t1, X.., t2] against twin blocks [t1, t2] for X over all inputs of (a), all call-data txs of (b) and the 17 tx kinds (batch sizes per block: see units). "+c20FilterRule(thorough),
+		"(d) blocks [t1, X.., t2] against twin blocks [t1, t2] for X over all inputs of (a), all call-data txs of (b) and the 17 tx kinds (batch sizes per block: see units). "+c20FilterRule(thorough)+" "+c20TraceRule(thorough),
 		b3, nv, map[bool]string{false: "", true: " (part (a): by all 255 other values, also inside MarshalledTx)"}[thorough], map[bool]string{false: "EstimateGas for the word-boundary subset", true: "EstimateGas for every input"}[thorough],
 		map[bool]string{false: "length 1 all, length 2 with first byte in the 7-byte set", true: "length 1-2 all, length 3 with the first two bytes in the 7-byte set"}[thorough])
 }
